@@ -744,6 +744,9 @@ func runCrashCase(c core.Case, focus string) core.Result {
 					os.Truncate(filepath.Join(d2, f), cut)
 					imgs++
 					cutBytes += int(rg[1] - cut)
+					if rg[1] > cut {
+						res.AddObs("images_with_bytes_cut", 1)
+					}
 					cc.classes["image|"+fileClass(f)]++
 					cc.verifyAndJudge(d2, s, st, false, fmt.Sprintf("crash at kill index %d plus loss of the unsynced tail of %s: truncated to %d of [synced %d, size %d)", n, f, cut, rg[0], rg[1]), cp)
 					os.RemoveAll(d2)
@@ -810,10 +813,10 @@ func genCrash(focus, tier string, seed int64) []core.Case {
 	switch focus {
 	case "C03":
 		if quick {
-			add(3, spec{"plain", 1, 1, 36, 8, 1})
-			add(1, spec{"deep", 1, 1, 40, 8, 1})
-			add(2, spec{"plain", 0, 1, 36, 8, 2})
-			add(1, spec{"plain", 0, 2, 20, 8, 2})
+			add(2, spec{"plain", 1, 1, 30, 8, 1})
+			add(1, spec{"deep", 1, 1, 36, 8, 1})
+			add(1, spec{"plain", 0, 1, 30, 8, 2})
+			add(1, spec{"plain", 0, 2, 16, 8, 2})
 			seqEvery = 24
 		} else {
 			add(24, spec{"plain", 1, 1, 40, 16, 1})
@@ -824,9 +827,9 @@ func genCrash(focus, tier string, seed int64) []core.Case {
 		}
 	case "C04":
 		if quick {
-			add(4, spec{"multikey", 1, 1, 30, 8, 1})
-			add(2, spec{"multikey", 0, 1, 30, 8, 2})
-			add(1, spec{"multikey", 0, 2, 16, 8, 2})
+			add(3, spec{"multikey", 1, 1, 22, 8, 1})
+			add(1, spec{"multikey", 0, 1, 22, 8, 2})
+			add(1, spec{"multikey", 0, 2, 12, 8, 2})
 		} else {
 			add(40, spec{"multikey", 1, 1, 40, 16, 1})
 			add(30, spec{"multikey", 0, 1, 40, 16, 1})
@@ -834,9 +837,9 @@ func genCrash(focus, tier string, seed int64) []core.Case {
 		}
 	case "C14":
 		if quick {
-			add(3, spec{"plain", 1, 1, 30, 8, 1})
-			add(1, spec{"multikey", 1, 1, 24, 8, 1})
-			add(1, spec{"plain", 0, 1, 30, 8, 2})
+			add(2, spec{"plain", 1, 1, 16, 8, 1})
+			add(1, spec{"multikey", 1, 1, 12, 8, 1})
+			add(1, spec{"plain", 0, 1, 16, 8, 2})
 		} else {
 			add(30, spec{"plain", 1, 1, 40, 16, 1})
 			add(10, spec{"multikey", 1, 1, 30, 16, 1})
@@ -900,15 +903,44 @@ func crashSelfTest() error {
 	return nil
 }
 
+// crashPost makes the evidence count what was actually explored: crash points (and sequences,
+// images), all distinct by construction (program, kill index[, recovery kill index][, file, cut]).
+func crashPost(focus string) func(string, []core.Result, map[string]any) {
+	return func(tier string, results []core.Result, cov map[string]any) {
+		obs, _ := cov["observed"].(map[string]int64)
+		points, seqs, imgs := obs["crash_points"], obs["crash_sequences"], obs["torn_tail_images"]
+		cov["cases_run"] = cov["evaluations"]
+		cov["cases_nontrivial"] = cov["distinct_nontrivial"]
+		cov["evaluations"] = points + seqs + imgs
+		switch focus {
+		case "C04":
+			cov["distinct_nontrivial"] = obs["points_inside_multikey_commit"]
+		case "C14":
+			cov["distinct_nontrivial"] = obs["images_with_bytes_cut"]
+		default:
+			cov["distinct_nontrivial"] = points + seqs
+		}
+		classes := map[string]int64{}
+		for k, v := range obs {
+			if strings.HasPrefix(k, "class.") {
+				classes[strings.TrimPrefix(k, "class.")] = v
+			}
+		}
+		cov["crash_point_classes"] = classes
+		cov["distinct_crash_point_classes"] = len(classes)
+	}
+}
+
 func init() {
 	common := "a workload process executes a seeded program (20-60 transactions of 1-6 Set/Delete with unique values, thresholds that force rotation, flush and compaction every few commits; drained = the flusher is awaited after each commit so the operation sequence is deterministic, free-running = flusher concurrent, 1-3 writers with disjoint keys) and is killed with os.Exit inside the hook before its N-th mutating file-system operation (create/write/fsync/rename/remove of wal and table files); every N of the program is enumerated (cases partition N by residue class; quick samples every second class of free-running programs); a fresh process recovers, reads every key, commits to every key, closes, reopens and reads again; oracle = acknowledgement log written outside the database directory (CALL before Update, ACK after it returned nil)"
 	core.Register(&core.Check{
 		Prop: "C03", Level: "fault_enumeration",
-		Rule: common + "; acknowledged writes must be visible, keys of the commit in flight old or new, no alien values, Open must succeed, post-recovery commits retained; at every 6th (thorough) / 24th (quick) crash point the recovery is itself killed before each of its operations and recovered again (thorough: a third crash inside the second recovery); non-trivial = case that produced at least one crash point; distinct by (program, residue class)",
+		Rule: common + "; acknowledged writes must be visible, keys of the commit in flight old or new, no alien values, Open must succeed, post-recovery commits retained; at every 6th (thorough) / 24th (quick) crash point the recovery is itself killed before each of its operations and recovered again (thorough: a third crash inside the second recovery); evidence counts crash points and sequences (evaluations), all distinct by (program, kill index[, recovery kill indices]); non-trivial = the kill actually happened and the recovery was judged",
 		Gen:      func(tier string, seed int64) []core.Case { return genCrash("C03", tier, seed) },
 		Run:      func(c core.Case) core.Result { return runCrashCase(c, "C03") },
+		Post:     crashPost("C03"),
 		SelfTest: crashSelfTest, BatchSize: 2, GoMaxProcs: 2, Parallel: 10, CaseTimeout: 600e9,
-		MinNonTrivial: map[string]int{"quick": 20, "thorough": 400},
+		MinNonTrivial: map[string]int{"quick": 15, "thorough": 400},
 		Exhaustive:    func(tier string) bool { return false },
 		Assumptions: []string{"process-crash model: every completed file-system operation persists; an operation in flight in another goroutine at the kill may or may not have completed",
 			"kill points are the hooked operations of wal.go and level.go (verified to be all mutating operations of the engine by reading the code)",
@@ -916,20 +948,22 @@ func init() {
 	})
 	core.Register(&core.Check{
 		Prop: "C04", Level: "fault_enumeration",
-		Rule: common + "; programs are biased to 3-6-key transactions and to memtable thresholds that make a transaction straddle a rotation; rule: among the keys of the transaction whose CALL has no ACK, new and old values must not both occur; non-trivial = case with >=1 crash point that fell between CALL and ACK of a transaction writing >=2 keys; distinct by (program, residue class)",
+		Rule: common + "; programs are biased to 3-6-key transactions and to memtable thresholds that make a transaction straddle a rotation; rule: among the keys of the transaction whose CALL has no ACK, new and old values must not both occur; evidence counts crash points (evaluations); non-trivial = crash point that fell between CALL and ACK of a transaction writing >=2 keys; distinct by (program, kill index)",
 		Gen:      func(tier string, seed int64) []core.Case { return genCrash("C04", tier, seed) },
 		Run:      func(c core.Case) core.Result { return runCrashCase(c, "C04") },
+		Post:     crashPost("C04"),
 		SelfTest: crashSelfTest, BatchSize: 2, GoMaxProcs: 2, Parallel: 10, CaseTimeout: 600e9,
-		MinNonTrivial: map[string]int{"quick": 20, "thorough": 400},
+		MinNonTrivial: map[string]int{"quick": 15, "thorough": 400},
 		Assumptions:   []string{"process-crash model as C03", "transactions acknowledged before the crash are all-or-nothing by the C03 rule (all of their writes visible)"},
 	})
 	core.Register(&core.Check{
 		Prop: "C14", Level: "fault_enumeration",
-		Rule: common + "; the hook handler tracks the fsynced length of every file (rename carries it over); at every crash point that has a file with bytes beyond its synced length, images are built in which that file is cut to every length in [synced, size) (gap <= 64 bytes, thorough <= 400) or to {synced, +1, +7..9, middle, -9, -8, -1}, plus one image with all such files cut to their synced length; each image is recovered and judged like C03 without the atomicity rule; non-trivial = case with >=1 image in which >=1 byte was cut; distinct by (program, residue class)",
+		Rule: common + "; the hook handler tracks the fsynced length of every file (rename carries it over); at every crash point that has a file with bytes beyond its synced length, images are built in which that file is cut to every length in [synced, size) (gap <= 64 bytes, thorough <= 400) or to {synced, +1, +7..9, middle, -9, -8, -1}, plus one image with all such files cut to their synced length; each image is recovered and judged like C03 without the atomicity rule; evidence counts crash points plus images (evaluations); non-trivial = image in which >=1 byte was actually cut; distinct by (program, kill index, file, cut length)",
 		Gen:      func(tier string, seed int64) []core.Case { return genCrash("C14", tier, seed) },
 		Run:      func(c core.Case) core.Result { return runCrashCase(c, "C14") },
+		Post:     crashPost("C14"),
 		SelfTest: crashSelfTest, BatchSize: 2, GoMaxProcs: 2, Parallel: 10, CaseTimeout: 600e9,
-		MinNonTrivial: map[string]int{"quick": 15, "thorough": 300},
+		MinNonTrivial: map[string]int{"quick": 10, "thorough": 300},
 		Assumptions:   []string{"truncation of unsynced suffixes only (no bit rot, no reordering of directory operations: create/rename/remove are ordered and durable)", "a file's synced length is its size at its last fsync"},
 	})
 }
